@@ -186,6 +186,9 @@ def run(ctx):
     c04.rule_r3(facts, ctx)   # only timed waits (C05.R5)
     from . import c09
     c09.rule_r6(facts, ctx, rule_id="C05.R4")   # no retirement with consumed-but-uncommitted input
+    from . import c03
+    c03.rule_r12(facts, ctx, rule_id="C05.R6")   # a second live window on one stream end fails depending on the peer's timing
+    ctx.floor("C05.R6", 80, "read_buf()/write_buf() requests of the crate's bodies (same rule as C03.R12)")
     ctx.floor("C05.R4", 25, "WaitForStream-on-output verdicts of blocks that consume")
     ctx.floor("C05.R1", 10, "loop-exit obligations of the MTGraph thread closure")
     ctx.floor("C05.R2", 1, "spawn loop in MTGraph::run")
